@@ -16,6 +16,8 @@ Leaf check in every reached state: variational_compress(O) (1site and 2site) of 
 """
 import functools
 
+import itertools
+
 import numpy as np
 
 from mc import env  # noqa: F401
@@ -306,6 +308,7 @@ def run_case(desc, seed):
     transitions = stats.get("transitions", 0)
     # ---- leaf: variational compression of O x state in every reached abstract state (one representative each)
     nleaf = 0
+    n_local_minimum = 0
     if desc["mode"] == "vc" and k == "mps" and n >= 2:
         seen = set()
         viol.clear()   # the BFS part is reported by the corresponding mode=bfs case
@@ -319,34 +322,45 @@ def run_case(desc, seed):
             xx0 = st.regs["x"]
             if not ((xx0.to_right and xx0.qnidx == 0) or ((not xx0.to_right) and xx0.qnidx == xx0.site_num - 1)):
                 continue   # variational_compress refuses (assert) a centre that is not at the matching chain end
-            for vmethod in (desc["vmethod"],):
+            for vmethod, (gname, gm) in itertools.product((desc["vmethod"],), (("wide-guess", None), ("narrow-operator-guess", 1))):
                 from renormalizer.utils import CompressConfig, CompressCriteria
                 s2 = st.clone()
                 xx = s2.regs["x"]
                 mmax = int(max(exact_bond_cap(xx)))
-                xx.compress_config = CompressConfig(CompressCriteria.fixed, max_bonddim=mmax, vmethod=vmethod, vguess_m=(mmax * 4, mmax))
+                # wide guess: the initial guess O_trunc @ x_trunc is exact; narrow operator guess: the operator copy used for the
+                # guess is truncated to bond dimension 1 (lossy), the sweeps have to find O@x themselves
+                xx.compress_config = CompressConfig(CompressCriteria.fixed, max_bonddim=mmax, vmethod=vmethod,
+                                                    vguess_m=(mmax * 4, mmax) if gm is None else (gm, mmax))
                 ref = Od @ s2.sh["x"]
                 if np.linalg.norm(ref) < 1e-12:
                     continue
+                O = ch.mpo_neutral()
                 try:
                     env.reseed(seed, ("vc", fam, n, tuple(sec), kind, vmethod))
                     y = M.call(xx.variational_compress, O)
                 except M.Disabled:
                     continue
                 except Exception as e:
-                    record(st.trace + [f"variational_compress({vmethod})"], "exception:" + type(e).__name__ + ":variational_compress", "x", repr(e))
+                    record(st.trace + [f"variational_compress({vmethod},{gname})"], "exception:" + type(e).__name__ + ":variational_compress", "x", repr(e))
                     continue
                 nleaf += 1
                 d = M.dense_of(y)
+                # the operator handed in must still be the same operator (it is only a guess that is built from a truncated copy)
+                if not close(np.asarray(O.todense()), Od, 1e-9):
+                    record(st.trace + [f"variational_compress({vmethod},{gname})"], "variational-operator-changed", "x",
+                           f"the operator passed to variational_compress changed by rel {rel_err(np.asarray(O.todense()), Od):.2e}")
                 if not close(d, ref, 1e-4):
-                    record(st.trace + [f"variational_compress({vmethod})"], "variational-mismatch", "x",
-                           f"variational_compress(O) ({vmethod}) differs from O@x by rel {rel_err(d, ref):.2e}; bond dims {y.bond_dims}")
+                    if gm is not None:
+                        n_local_minimum += 1     # a poor guess (possibly orthogonal to O@x) may leave the sweeps stuck: not claimed
+                    else:
+                        record(st.trace + [f"variational_compress({vmethod},{gname})"], "variational-mismatch", "x",
+                               f"variational_compress(O) ({vmethod}, {gname}) differs from O@x by rel {rel_err(d, ref):.2e}; bond dims {y.bond_dims}")
                 # the input must be untouched
                 if not close(M.dense_of(xx), s2.sh["x"], 1e-9):
-                    record(st.trace + [f"variational_compress({vmethod})"], "variational-input-changed", "x", "input state changed by variational_compress")
+                    record(st.trace + [f"variational_compress({vmethod},{gname})"], "variational-input-changed", "x", "input state changed by variational_compress")
     maxbond = max(x.bond_dims)
     counters = {"disabled_transitions": stats.get("disabled", 0), "abstraction_conflicts": stats.get("nondeterministic_abstract_successors", 0),
-                "bfs_fixpoints_reached": int(bool(stats.get("fixpoint"))), "bfs_runs": 1, "variational_leaves": nleaf,
+                "bfs_fixpoints_reached": int(bool(stats.get("fixpoint"))), "bfs_runs": 1, "variational_leaves": nleaf, "variational_poor_guess_not_converged": n_local_minimum,
                 "bfs_capped": int(bool(stats.get("capped")))}
     return {"nontrivial": transitions > 0 and (maxbond > 1 or n == 1 or kind == "prod"), "states": len(stats.get("states", [])),
             "transitions": transitions + nleaf, "viol": list(viol.values()), "counters": counters,
